@@ -385,6 +385,10 @@ vh::GenSpec spec12f(bool th) { vh::GenSpec g = spec(P_C12, th); g.fault_max = 10
 vh::Register r12f("C12f", spec12f(false), spec12f(true), [](const vh::Case& c) { return (!c.cfg.empty() && c.cfg[0] & 1) ? run_rcu<Tracked, vrt::QAllocS<Tracked>>(c, P_C12) : run_rcu<Tracked>(c, P_C12); },
                   "as C12 with a fault plan over the list's allocations (node in push/emplace, retire record in erase): a throwing push leaves the list unchanged, after a throwing erase the element's presence "
                   "is unspecified but a later erase that returns normally removes it, the write mutex is released; final contents still match a sequential execution");
+vh::GenSpec spec05f(bool th) { vh::GenSpec g = spec(P_C05, th); g.fault_max = 10; g.fault_mask = vrt::F_ALLOC; return g; }
+vh::Register r05f("C05f", spec05f(false), spec05f(true), [](const vh::Case& c) { return (!c.cfg.empty() && c.cfg[0] & 1) ? run_rcu<Tracked, vrt::QAllocS<Tracked>>(c, P_C12) : run_rcu<Tracked>(c, P_C12); },
+                  "as C05 with allocation failures injected inside push/emplace/erase: a failing erase must not free the element under handles that predate it (quarantine + direct rule stay active; "
+                  "leaks are not judged here)");
 vh::Register r12s("C12s", spec(P_C12S, false), spec(P_C12S, true), [](const vh::Case& c) { return run_rcu<Tracked>(c, P_C12S); },
                   "generated sequential command sequences (push_front/back, emplace_front/back, erase k-th, traversal) compared with a reference list after every command; "
                   "non-trivial = at least one erase and one insertion");
